@@ -47,6 +47,7 @@ type c14Sess struct {
 	presetExp string
 	issuer    string
 	extra     bool
+	presetAud []string // audiences the integrator put into the session's ID token claims (a resource server, say)
 }
 
 func TestC14_IDTokens(t *testing.T) {
@@ -74,6 +75,12 @@ func TestC14_IDTokens(t *testing.T) {
 		ss.presetExp = rapid.SampledFrom([]string{"", "", "", "future-10m", "future-3h", "past"}).Draw(rt, "presetExpiry")
 		ss.issuer = rapid.SampledFrom([]string{"", "", "https://custom-issuer.example"}).Draw(rt, "sessionIssuer")
 		ss.extra = rapid.Bool().Draw(rt, "extraClaims")
+		switch rapid.IntRange(0, 5).Draw(rt, "presetAudience") {
+		case 0:
+			ss.presetAud = []string{"https://rs.example"}
+		case 1:
+			ss.presetAud = []string{"another-client", "https://rs.example"}
+		}
 		rat := h.Now().UTC().Truncate(time.Second)
 		mkSess := func() *h.Sess {
 			s := h.NewSess(ss.subject)
@@ -99,6 +106,10 @@ func TestC14_IDTokens(t *testing.T) {
 				s.Claims.ExpiresAt = h.Now().UTC().Add(-time.Minute).Truncate(time.Second)
 			}
 			s.Claims.Issuer = ss.issuer
+			if len(ss.presetAud) > 0 {
+				s.Claims.Audience = append([]string{}, ss.presetAud...)
+				h.Label("session-presets-audience")
+			}
 			if ss.extra {
 				s.Claims.Extra = map[string]interface{}{"foo": "bar", "sub": "mallory", "aud": "someone-else", "nonce": "forged-nonce-0123456789", "at_hash": "forged", "c_hash": "forged", "exp": 4102444800, "iss": "https://evil.example"}
 			}
